@@ -122,8 +122,8 @@ pub fn check(acc: &mut Acc, g: &G, shell: Shell) {
 }
 
 const DEFINABLE: [&str; 3] = ["A", "B", "C"];
-/// statuses: 0 none, 1 plain, 2 @bash, 3 @fish, 4 plain + @bash, 5 plain + @zsh
-const NSTATUS: usize = 6;
+/// statuses: 0 none, 1 plain, 2 @bash, 3 @fish, 4 plain + @bash, 5 plain + @zsh, 6 @pwsh
+const NSTATUS: usize = 7;
 
 /// call-variant shape: optional items in a sequence (top level, inside a word, under |)
 fn main_expr(refs: &[&str], style: usize) -> E {
@@ -186,6 +186,7 @@ pub fn family(f: &mut dyn FnMut(G)) {
                                     stmts.push(crate::fam::spec(name, "zsh", "p_zsh"));
                                     stmts.push(crate::fam::def(name, E::cmd("p_plain")));
                                 }
+                                6 => stmts.push(crate::fam::spec(name, "pwsh", "p_pwsh")),
                                 _ => {}
                             }
                         }
@@ -221,6 +222,7 @@ pub fn special_names_family(f: &mut dyn FnMut(G)) {
                         stmts.push(crate::fam::def(name, E::cmd("p_plain")));
                         stmts.push(crate::fam::spec(name, "bash", "p_bash"));
                     }
+                    6 => stmts.push(crate::fam::spec(name, "pwsh", "p_pwsh")),
                     _ => {
                         stmts.push(crate::fam::spec(name, "zsh", "p_zsh"));
                         stmts.push(crate::fam::def(name, E::cmd("p_plain")));
@@ -382,7 +384,7 @@ pub fn run(tier: Tier) -> Report {
     rep.cov(
         "rule",
         J::s(format!(
-            "exhaustive reference structures: names A,B,C each with status in {{undefined, plain, @bash, @fish, plain+@bash, plain+@zsh}} (6^3) x every subset of {{A,B,C,U,_,PATH}} referenced by the call variant (top level, inside a word, under |) x every subset of the acyclic references A->{{B,C,U}}, B->{{C,DIRECTORY}}, C->{{U}} in plain bodies x statement order; plus `_`, PATH and DIRECTORY as defined names (5 definition statuses x unreferenced / referenced at top level / inside a word / through a used / through an unused definition); plus every definition DAG on 2..5 definitions in 3 statement orders (no warning expected); targets: {}. Oracle R8 by plain reachability; per case the three warning maps, the text under every warning span, and byte-equality of the script after deleting everything warned about (and other-shell definitions). Level B: the real binary on the special-names family (all targets) and every 211th (thorough: 23rd) grammar of the main family: exit 0, the multiset of (`warning:` label, name found at the printed line:column) equals the oracle's, stdout equals the library's script. distinct = distinct (grammar text, target).",
+            "exhaustive reference structures: names A,B,C each with status in {{undefined, plain, @bash, @fish, plain+@bash, plain+@zsh, @pwsh}} (7^3) x every subset of {{A,B,C,U,_,PATH}} referenced by the call variant (top level, inside a word, under |) x every subset of the acyclic references A->{{B,C,U}}, B->{{C,DIRECTORY}}, C->{{U}} in plain bodies x statement order; plus `_`, PATH and DIRECTORY as defined names (5 definition statuses x unreferenced / referenced at top level / inside a word / through a used / through an unused definition); plus every definition DAG on 2..5 definitions in 3 statement orders (no warning expected); targets: {}. Oracle R8 by plain reachability; per case the three warning maps, the text under every warning span, and byte-equality of the script after deleting everything warned about (and other-shell definitions). Level B: the real binary on the special-names family (all targets) and every 211th (thorough: 23rd) grammar of the main family: exit 0, the multiset of (`warning:` label, name found at the printed line:column) equals the oracle's, stdout equals the library's script. distinct = distinct (grammar text, target).",
             if stride == 1 { "all four per grammar" } else { "one per grammar, round-robin (all four per status vector)" }
         )),
     );
